@@ -311,6 +311,45 @@ def isIdentifier (s : Str) : Bool :=
 def chooseFillName (isDefault : Bool) (slotName : Str) (fills : List (Str × FillFn)) : Str :=
   if isDefault && (sGet defaultKey fills).isSome then defaultKey else slotName
 
+def fillOfCaptured (c : Captured) : FillFn :=
+  { nodes := c.nodes, dataVar := c.dataVar, defaultVar := c.defaultVar, extra := c.extra }
+
+def blankBody (body : List Node) : Bool := body.all (fun nd => match nd with | .text s => isBlank s | _ => false)
+def blankToks (content : List Tok) : Bool := content.all (fun t => match t with | .text s => isBlank s | _ => false)
+
+/-- the decision part of `resolve_fills` / `_extract_fill_content`: from the fills that executed while
+the body was rendered in extraction mode and what else the body printed, to the component's fills -/
+def decideFills (captured : List Captured) (body : List Node) (content : List Tok) : Except Err (List (Str × FillFn)) :=
+  if captured.isEmpty then
+    if blankBody body then .ok []
+    else .ok [(defaultKey, { nodes := body, dataVar := none, defaultVar := none, extra := [] })]
+  else if !blankToks content then .error (.tse "fill alongside other content")
+  else if !(captured.map (·.name)).Nodup then .error (.tse "duplicate fill")
+  else .ok (captured.foldl (fun acc c => sSet c.name (fillOfCaptured c) acc) [])
+
+/-- the checks `SlotNode.render` makes first: the `default` bookkeeping and the double-fill check.
+Returns the name of the fill to use and the (possibly new)
+name recorded as the component's default slot. -/
+def slotChecks (isDefault isDyn : Bool) (recorded : Option Str) (slotName : Str)
+    (fills : List (Str × FillFn)) : Except Err (Str × Option Str) :=
+  let recorded' : Except Err (Option Str) :=
+    if isDefault && !isDyn then
+      match recorded with
+      | some d => if slotName ≠ d then .error (.tse "two default slots") else .ok recorded
+      | none => .ok (some slotName)
+    else .ok recorded
+  match recorded' with
+  | .error e => .error e
+  | .ok r =>
+    if isDefault && !isDyn && slotName ≠ defaultKey && (sGet slotName fills).isSome && (sGet defaultKey fills).isSome then
+      .error (.tse "slot filled twice")
+    else
+      .ok (chooseFillName isDefault slotName fills, r)
+
+/-- the `required` check (made on the fills that are finally consulted) -/
+def requiredCheck (isRequired isDyn : Bool) (fill : Option FillFn) : Except Err Unit :=
+  if isRequired && fill.isNone && !isDyn then .error (.tse "required slot not filled") else .ok ()
+
 def compVars (fills : List (Str × FillFn)) : Val := .isFilled (fills.map (fun kv => escapeSlotName kv.1))
 
 def evalKwargs (ctx : Ctx) (kw : List (Str × Expr)) : List (Str × Val) := kw.map (fun kv => (kv.1, evalExpr ctx kv.2))
@@ -437,16 +476,9 @@ mutual
       let content ← renderNodes env n body (ctx ++ [[(fillGenKey, .fillGen)]])
       let captured := (← get).cap
       modify (fun w => { w with cap := saved })
-      if captured.isEmpty then
-        let blank := body.all (fun nd => match nd with | .text s => isBlank s | _ => false)
-        if blank then pure []
-        else pure [(defaultKey, { nodes := body, dataVar := none, defaultVar := none, extra := [] })]
-      else
-        let txt := content.all (fun t => match t with | .text s => isBlank s | _ => false)
-        if !txt then throw (.tse "fill alongside other content")
-        let names := captured.map (·.name)
-        if !names.Nodup then throw (.tse "duplicate fill")
-        pure (captured.foldl (fun acc c => sSet c.name { nodes := c.nodes, dataVar := c.dataVar, defaultVar := c.defaultVar, extra := c.extra } acc) [])
+      match decideFills captured body content with
+      | .ok fills => pure fills
+      | .error e => throw e
 
   /-- `ComponentNode.render` -/
   def renderCompTag (env : Env) : Nat → Str → List (Str × Expr) → Bool → Bool → List Node → Ctx → M (List Tok)
@@ -570,18 +602,18 @@ mutual
         | none => throw (.keyError "component_context_cache")
       let slotName := match nameV with | .str s => s | v => pyStr v
       let fills := cc.fills
-      if isDefault && !cc.isDyn then
-        (match cc.defaultSlot with
-         | some d => if slotName ≠ d then throw (.tse "two default slots") else pure ()
-         | none => modify (fun w => { w with ctxCache := alSet cid { cc with defaultSlot := some slotName } w.ctxCache }))
-        if slotName ≠ defaultKey && (sGet slotName fills).isSome && (sGet defaultKey fills).isSome then
-          throw (.tse "slot filled twice")
+      let (fillName, recorded) ← (match slotChecks isDefault cc.isDyn cc.defaultSlot slotName fills with
+        | .ok r => do
+          -- `component_ctx.default_slot = slot_name` happens before the double-fill check can raise
+          pure r
+        | .error e => do
+          if isDefault && !cc.isDyn && cc.defaultSlot.isNone then
+            modify (fun w => { w with ctxCache := alSet cid { cc with defaultSlot := some slotName } w.ctxCache })
+          throw e : M (Str × Option Str))
+      if recorded ≠ cc.defaultSlot then
+        modify (fun w => { w with ctxCache := alSet cid { cc with defaultSlot := recorded } w.ctxCache })
       -- `slot_name in fills` hashes the name
-      (match nameV with
-       | .list _ => throw (.typeError "unhashable slot name")
-       | .dict _ => throw (.typeError "unhashable slot name")
-       | _ => pure ())
-      let fillName := chooseFillName isDefault slotName fills
+      if !hashable nameV then throw (.typeError "unhashable slot name")
       -- django mode, rendered from Python (no outer context): look the fills up through the layers
       let w ← get
       let fills' : List (Str × FillFn) :=
@@ -604,7 +636,9 @@ mutual
               | _ => fills
         else fills
       let fill : Option FillFn := sGet fillName fills'
-      if isRequired && fill.isNone && !cc.isDyn then throw (.tse "required slot not filled")
+      match requiredCheck isRequired cc.isDyn fill with
+      | .error e => throw e
+      | .ok _ => pure ()
       -- extra_context
       let extra : Layer :=
         if !env.isolated then
